@@ -496,8 +496,12 @@ def build_rod(rng, C, t0, level=None):
     rod._export_dict["level"] = level
     if level == "volume":
         rod._export_dict["volume_directors"] = bool(rng.random() < 0.5)
+        rod._export_dict["stresses"] = bool(rng.random() < 0.5)
         if rng.random() < 0.3:
             rod._export_dict["ncells"] = int(rng.integers(1, 4))
+        if cs.__class__.__name__ == "CircularCrossSection" and rng.random() < 0.5:
+            rod._export_dict["surface_normals"] = True
+            rod._export_dict["ncells"] = int(rng.integers(1, nel + 1))      # at most as many cells as elements
     clamp = C["RigidConnection"](system.origin if at_origin else C_frame(C, system, r0, A0), rod, xi2=0)
     Fv = rng.normal(size=3) * _lu(rng, 0.2, 2)
     tip = C["Force"](Fv, rod, 1.0, name="tipforce")
@@ -517,6 +521,52 @@ def build_rod(rng, C, t0, level=None):
         if c.name == "clamp_frame":
             items.append(dict(contr=c, name="clamp_frame", tag="Frame:static", expect=exp_frame(c, lambda t: r0, lambda t: A0), listable=None))
     return system, items
+
+
+def _rod_placement_invariance(ctx, rng, C, system, sol, t0):
+    """what a rod exports must not depend on WHERE its coordinates sit in the system: the same rod state, embedded in a system in
+    which another body comes first (all rod degrees of freedom shifted), must export the same points and data"""
+    import copy, types
+    rod = [c for c in system.contributions if c.name == "rod"][0]
+    if rod._export_dict.get("level") is None:
+        return
+    with _Quiet():
+        S2 = C["System"](t0=t0)
+        pm = C["PointMass"](1.0, q0=np.array([5.0, 5.0, 5.0]), u0=np.zeros(3), name="ahead_of_the_rod")
+        rod2 = copy.deepcopy(rod)
+        S2.add(pm, rod2)
+        for c in system.contributions:
+            if c.name in ("rod", "cardillo_origin") or c.__class__.__name__ in ("RigidConnection", "Force"):
+                continue
+        S2.assemble(options=C["SolverOptions"](compute_consistent_initial_conditions=False))
+    ctx.mon("rod.placement_invariance")
+    ctx.cls("rod:export_with_stresses" if rod._export_dict.get("stresses") else "rod:export_without_stresses")
+    recs = list(sol)
+    for k in sorted(set([0, len(recs) // 2, len(recs) - 1])):
+        r1 = recs[k]
+        q2 = np.concatenate([pm.q0, np.asarray(r1.q)[rod.qDOF]]); u2 = np.concatenate([pm.u0, np.asarray(r1.u)[rod.uDOF]])
+        la_c2 = np.asarray(r1.la_c)[rod.la_cDOF] if (getattr(r1, "la_c", None) is not None and hasattr(rod, "la_cDOF")) else getattr(r1, "la_c", None)
+        la_g2 = np.asarray(r1.la_g)[rod.la_gDOF] if (getattr(r1, "la_g", None) is not None and hasattr(rod, "la_gDOF")) else np.zeros(0)
+        r2 = types.SimpleNamespace(t=r1.t, q=q2, u=u2, la_c=la_c2, la_g=la_g2)
+        try:
+            with _Quiet():
+                e1 = rod.export(r1); e2 = rod2.export(r2)
+        except Exception as e:
+            ctx.violation("Rod.export", "exporting the rod raises", {"error": f"{type(e).__name__}: {e}"[:300], "frame": k, "export_options": {a: b for a, b in rod._export_dict.items() if isinstance(b, (bool, int, str))}})
+            return
+        p1, p2 = np.asarray(e1[0], dtype=float), np.asarray(e2[0], dtype=float)
+        bad = None
+        if p1.shape != p2.shape or np.abs(p1 - p2).max() > 1e-9 * (1 + np.abs(p1).max()):
+            bad = "points"
+        for d1, d2, what in ((e1[2] or {}, e2[2] or {}, "point_data"), (e1[3] or {}, e2[3] or {}, "cell_data")):
+            for name in d1:
+                a, b = np.asarray(d1[name], dtype=float), np.asarray(d2.get(name), dtype=float)
+                if a.shape != b.shape or (a.size and np.abs(a - b).max() > 1e-7 * (1 + np.abs(a).max())):
+                    bad = bad or f"{what}:{name}"
+        if bad:
+            ctx.violation("Rod.export", "the rod exports other data when another body precedes it in the system (same rod state)",
+                          {"first_difference": bad, "frame": k, "export_options": {a: b for a, b in rod._export_dict.items() if isinstance(b, (bool, int, str))}})
+            return
 
 
 def C_frame(C, system, r0, A0):
@@ -884,6 +934,8 @@ def run_case(spec, ctx):
     if not (np.all(np.isfinite(sol.q)) and np.all(np.isfinite(sol.u))):
         ctx.undecided("simulation produced non-finite states")
         return
+    if kind == "rod":
+        _rod_placement_invariance(ctx, rng, C, system, sol, t0)
     N = len(sol.t)
     T = float(sol.t[-1] - sol.t[0])
     # fps so that the stride covers 1..7 (and beyond)
